@@ -130,19 +130,35 @@ def parseCompsTok (s : String) : Option Comps :=
   if s = "n" then some none else if s = "e" then some (some [])
   else ((s.splitOn "+").mapM parseCps).map some
 
-/-- wrappers `name=comps` or `name=comps=inner` (the body only calls `self.<inner>(…)`) -/
-def parseWrappers (s : String) : Option (List (Str × Comps) × List (Str × Str)) :=
-  if s = "-" then some ([], []) else do
+/-- wrappers `name=comps`, `name=comps=inner` or `name=comps=inner=flags`; inner: the name of the wrapper the body
+calls (`self.<inner>(…)`), `*` (the body reaches get_conn() through the helper method `_shared_conn`) or `.` (none);
+flags: `g` generator function, `y` generator function that delegates (`yield from`) to the helper generator
+`_gen_conn`, `a` coroutine function, `d` the body drives the object that `self.<inner>(…)` returns itself -/
+def parseWrappers (s : String) : Option (List (Str × Comps) × Bodies) :=
+  if s = "-" then some ([], ⟨[], [], []⟩) else do
   let ws ← (s.splitOn "/").mapM fun w =>
+    let go (m c i fl : String) : Option ((Str × Comps) × Option (Str × Str × Bool) × Bool × Option Str) := do
+      let name ← parseCps m
+      let comps ← parseCompsTok c
+      let flags := fl.toList
+      if !flags.all (fun ch => ch = 'g' || ch = 'y' || ch = 'a' || ch = 'd') then none
+      let deferred := flags.any (fun ch => ch = 'g' || ch = 'y' || ch = 'a')
+      let viaGen := flags.contains 'y'
+      if i = "." then
+        some ((name, comps), none, deferred, if viaGen then some "_gen_conn".toList else none)
+      else if i = "*" then
+        if viaGen then none else some ((name, comps), none, deferred, some "_shared_conn".toList)
+      else
+        if viaGen then none else
+        some ((name, comps), some (name, ← parseCps i, flags.contains 'd'), deferred, none)
     match w.splitOn "=" with
-    | [m, c] => do some ((← parseCps m, ← parseCompsTok c), none)
-    | [m, c, i] =>
-      -- `*`: the body reaches get_conn() through a helper method shared by all wrappers (not a wrapper itself:
-      -- transparent for the stack walk)
-      if i = "*" then do some ((← parseCps m, ← parseCompsTok c), none)
-      else do some ((← parseCps m, ← parseCompsTok c), some (← parseCps m, ← parseCps i))
+    | [m, c] => go m c "." ""
+    | [m, c, i] => go m c i ""
+    | [m, c, i, fl] => go m c i fl
     | _ => none
-  some (ws.map (·.1), ws.filterMap (·.2))
+  some (ws.map (·.1),
+    ⟨ws.filterMap (·.2.1), ws.filterMap (fun x => if x.2.2.1 then some x.1.1 else none),
+     ws.filterMap (fun x => x.2.2.2.map fun h => (x.1.1, h))⟩)
 
 def parseTarget (st : St) (s : String) : Option Target :=
   match s.splitOn "=" with
